@@ -15,11 +15,19 @@ use moc::ranges::Ranges;
 use crate::gen::*;
 use crate::util::*;
 
-const DT: u8 = 2; // 8 time cells
+// Time depth and time offset of the current pass (depth 2: 8 coarse cells from 0; depth 61: 8 one-microsecond
+// cells, from 0 or just below the top of the time domain so that indices exceed 2^53).
+static DT_A: std::sync::atomic::AtomicU8 = std::sync::atomic::AtomicU8::new(2);
+static T0_A: std::sync::atomic::AtomicU64 = std::sync::atomic::AtomicU64::new(0);
+#[allow(non_snake_case)]
+fn DT_() -> u8 { DT_A.load(std::sync::atomic::Ordering::Relaxed) }
+fn t0() -> u64 { T0_A.load(std::sync::atomic::Ordering::Relaxed) }
+fn set_pass(dt: u8, t0: u64) { DT_A.store(dt, std::sync::atomic::Ordering::Relaxed); T0_A.store(t0, std::sync::atomic::Ordering::Relaxed); }
+fn tranges_of_mask(mask: u64) -> Vec<Range<u64>> { ranges_of_mask(mask, NT as u32, tunit()).into_iter().map(|r| r.start + t0()..r.end + t0()).collect() }
 const DS: u8 = 0; // 12 space cells (4 used)
 const NT: u64 = 8;
 const NS: u64 = 4;
-fn tunit() -> u64 { 1u64 << (61 - DT as u32) }
+fn tunit() -> u64 { 1u64 << (61 - DT_() as u32) }
 fn sunit() -> u64 { 1u64 << 58 }
 
 type Elem = (Vec<Range<u64>>, Vec<Range<u64>>);
@@ -30,8 +38,8 @@ fn st_txt(m: &[Elem]) -> String {
 fn grid_t() -> Vec<u64> {
   // one representative instant per time cell + the cell starts themselves (shared boundaries)
   let mut v = Vec::new();
-  for c in 0..NT { v.push(c * tunit()); v.push(c * tunit() + tunit() / 3); }
-  v.push(NT * tunit() - 1);
+  for c in 0..NT { v.push(t0() + c * tunit()); v.push(t0() + c * tunit() + tunit() / 3); }
+  v.push(t0() + NT * tunit() - 1);
   v
 }
 fn grid_s() -> Vec<u64> {
@@ -66,7 +74,7 @@ fn random_st(rng: &mut Rng) -> Vec<Elem> {
       _ => {
         // start a new element with a different space MOC
         if cur_mask != 0 {
-          elems.push((ranges_of_mask(cur_mask, NT as u32, tunit()), ranges_of_mask(cur_s, NS as u32, sunit())));
+          elems.push((tranges_of_mask(cur_mask), ranges_of_mask(cur_s, NS as u32, sunit())));
           cur_mask = 0;
         }
         let prev = cur_s;
@@ -76,7 +84,7 @@ fn random_st(rng: &mut Rng) -> Vec<Elem> {
     }
   }
   if cur_mask != 0 {
-    elems.push((ranges_of_mask(cur_mask, NT as u32, tunit()), ranges_of_mask(cur_s, NS as u32, sunit())));
+    elems.push((tranges_of_mask(cur_mask), ranges_of_mask(cur_s, NS as u32, sunit())));
   }
   elems
 }
@@ -96,7 +104,7 @@ fn related_st(rng: &mut Rng, a: &[Elem]) -> Vec<Elem> {
   let (mut prev_a, mut prev_b, mut last_b) = (0u64, 0u64, 0u64);
   for e in a {
     let am = mask_of(&e.1, NS, sunit());
-    let tm = mask_of(&e.0, NT, tunit());
+    let tm = { let sh: Vec<Range<u64>> = e.0.iter().map(|r| r.start - t0()..r.end - t0()).collect(); mask_of(&sh, NT, tunit()) };
     let tmb = match rng.below(8) {
       0 => 0,
       1 => tm & (tm - 1),                                  // without its first cell
@@ -117,7 +125,7 @@ fn related_st(rng: &mut Rng, a: &[Elem]) -> Vec<Elem> {
     if sm == 0 || sm == last_b { sm = 1 + ((sm + 1 + rng.below(14)) % 15); if sm == last_b { sm = 1 + (sm % 15); } }
     prev_a = am;
     if tmb != 0 {
-      b.push((ranges_of_mask(tmb, NT as u32, tunit()), ranges_of_mask(sm, NS as u32, sunit())));
+      b.push((tranges_of_mask(tmb), ranges_of_mask(sm, NS as u32, sunit())));
       prev_b = sm;
       last_b = sm;
     }
@@ -126,7 +134,7 @@ fn related_st(rng: &mut Rng, a: &[Elem]) -> Vec<Elem> {
 }
 
 fn to_moc2(m: &[Elem]) -> RangeMOC2<u64, Time<u64>, u64, Hpx<u64>> {
-  RangeMOC2::new(DT, DS, m.iter().map(|e| RangeMOC2Elem::new(mk_moc(DT, &e.0), mk_moc(DS, &e.1))).collect())
+  RangeMOC2::new(DT_(), DS, m.iter().map(|e| RangeMOC2Elem::new(mk_moc(DT_(), &e.0), mk_moc(DS, &e.1))).collect())
 }
 fn from_moc2(m: RangeMOC2<u64, Time<u64>, u64, Hpx<u64>>) -> Vec<Elem> {
   m.into_range_moc2_iter().map(|e| { let (t, s) = e.mocs(); (moc_ranges_u64(&t), moc_ranges_u64(&s)) }).collect()
@@ -150,8 +158,8 @@ fn from_flat(m: &TimeSpaceMoc<u64, u64>) -> Vec<Elem> {
 }
 
 /// C08: streaming union, all forms, both operand orders.
-pub fn c08(sink: &mut Sink, rng: &mut Rng, thorough: bool) {
-  let n = if thorough { 20_000 } else { 1500 };
+fn c08_pass(sink: &mut Sink, rng: &mut Rng, thorough: bool) {
+  let n = if thorough { 30_000 } else { 700 };
   let (tp, sp) = (nats(&grid_t()), nats(&grid_s()));
   for i in 0..n {
     let a = random_st(rng);
@@ -171,8 +179,8 @@ pub fn c08(sink: &mut Sink, rng: &mut Rng, thorough: bool) {
           Ok((d, out)) => {
             sink.emit(&format!("st_sem 14 {} {} {} {}", tx, ty, tp, sp), &bits_of(&out), !(x.is_empty() && y.is_empty()));
             sink.emit(&format!("st_valid {}", st_txt(&out)), "true", !out.is_empty());
-            if d != (DT, DS) {
-              sink.impl_failures.push(format!("C08 depths of the union are {:?}, expected ({}, {}): {} | {}", d, DT, DS, tx, ty));
+            if d != (DT_(), DS) {
+              sink.impl_failures.push(format!("C08 depths of the union are {:?}, expected ({}, {}): {} | {}", d, DT_(), DS, tx, ty));
             }
           }
         }
@@ -182,8 +190,8 @@ pub fn c08(sink: &mut Sink, rng: &mut Rng, thorough: bool) {
 }
 
 /// C10: Ranges2D algebra, folds, lookups.
-pub fn c10(sink: &mut Sink, rng: &mut Rng, thorough: bool) {
-  let n = if thorough { 15_000 } else { 1200 };
+fn c10_pass(sink: &mut Sink, rng: &mut Rng, thorough: bool) {
+  let n = if thorough { 20_000 } else { 500 };
   let (gt, gs) = (grid_t(), grid_s());
   let (tp, sp) = (nats(&gt), nats(&gs));
   for i in 0..n {
@@ -205,7 +213,7 @@ pub fn c10(sink: &mut Sink, rng: &mut Rng, thorough: bool) {
     }
     // folds
     let tmask = rng.below(1 << NT);
-    let tm = ranges_of_mask(tmask, NT as u32, tunit());
+    let tm = tranges_of_mask(tmask);
     let tmr: MocRanges<u64, Time<u64>> = Ranges::new_unchecked(tm.clone()).into();
     match std::panic::catch_unwind(AssertUnwindSafe(|| TimeSpaceMoc::project_on_second_dim(&tmr, &fa))) {
       Err(_) => sink.emit(&format!("st_tfold {} {} {}", fmt_ranges(&tm), ta, sp), &panic_answer(), true),
@@ -240,8 +248,8 @@ pub fn c10(sink: &mut Sink, rng: &mut Rng, thorough: bool) {
 }
 
 /// C09: construction from observations, both paths, all orders / capacities.
-pub fn c09(sink: &mut Sink, rng: &mut Rng, thorough: bool) {
-  let n = if thorough { 6000 } else { 500 };
+fn c09_pass(sink: &mut Sink, rng: &mut Rng, thorough: bool) {
+  let n = if thorough { 12_000 } else { 250 };
   let (tp, sp) = (nats(&grid_t()), nats(&grid_s()));
   for _ in 0..n {
     let nobs = rng.below(6) as usize;
@@ -249,32 +257,40 @@ pub fn c09(sink: &mut Sink, rng: &mut Rng, thorough: bool) {
     // at different positions, first observation not the earliest, duplicates
     let mut obs: Vec<(Range<u64>, u64)> = (0..nobs).map(|_| { let a = rng.below(NT); let l = 1 + rng.below(3); (a..(a + l).min(NT), rng.below(NS)) }).collect();
     if rng.chance(1, 3) && !obs.is_empty() { let o = obs[0].clone(); obs.push(o); }
-    let otxt = if obs.is_empty() { "_".to_string() } else { obs.iter().map(|(t, s)| format!("{}-{}@{}-{}", t.start * tunit(), t.end * tunit(), s * sunit(), (s + 1) * sunit())).collect::<Vec<_>>().join(";") };
+    let otxt = if obs.is_empty() { "_".to_string() } else { obs.iter().map(|(t, s)| format!("{}-{}@{}-{}", t0() + t.start * tunit(), t0() + t.end * tunit(), s * sunit(), (s + 1) * sunit())).collect::<Vec<_>>().join(";") };
     let op = format!("st_obs {} {} {}", otxt, tp, sp);
     for cap in [1usize, 2, 3, 100] {
       // (a) streaming builder on (time range, cell)
       let res = std::panic::catch_unwind(AssertUnwindSafe(|| {
-        from_moc2(RangeMOC2::<u64, Time<u64>, u64, Hpx<u64>>::from_ranges_and_fixed_depth_cells(DT, DS, obs.iter().map(|(t, s)| (t.start * tunit()..t.end * tunit(), *s)), Some(cap)))
+        from_moc2(RangeMOC2::<u64, Time<u64>, u64, Hpx<u64>>::from_ranges_and_fixed_depth_cells(DT_(), DS, obs.iter().map(|(t, s)| (t0() + t.start * tunit()..t0() + t.end * tunit(), *s)), Some(cap)))
       }));
       sink.count("path:ranges-cells-builder");
       match res { Err(_) => sink.emit(&op, &panic_answer(), true), Ok(out) => { sink.emit(&op, &bits_of(&out), nobs > 1); } }
       // (b) streaming builder on (time cell, space cell): unit observations
       let unit_obs: Vec<(u64, u64)> = obs.iter().map(|(t, s)| (t.start, *s)).collect();
-      let utxt = if unit_obs.is_empty() { "_".to_string() } else { unit_obs.iter().map(|(t, s)| format!("{}-{}@{}-{}", t * tunit(), (t + 1) * tunit(), s * sunit(), (s + 1) * sunit())).collect::<Vec<_>>().join(";") };
+      let unit_cells: Vec<(u64, u64)> = unit_obs.iter().map(|(t, s)| (t0() / tunit() + t, *s)).collect();
+      let utxt = if unit_obs.is_empty() { "_".to_string() } else { unit_obs.iter().map(|(t, s)| format!("{}-{}@{}-{}", t0() + t * tunit(), t0() + (t + 1) * tunit(), s * sunit(), (s + 1) * sunit())).collect::<Vec<_>>().join(";") };
       let res = std::panic::catch_unwind(AssertUnwindSafe(|| {
-        from_moc2(RangeMOC2::<u64, Time<u64>, u64, Hpx<u64>>::from_fixed_depth_cells(DT, DS, unit_obs.iter().cloned(), Some(cap)))
+        from_moc2(RangeMOC2::<u64, Time<u64>, u64, Hpx<u64>>::from_fixed_depth_cells(DT_(), DS, unit_cells.iter().cloned(), Some(cap)))
       }));
       sink.count("path:cells-builder");
       let opu = format!("st_obs {} {} {}", utxt, tp, sp);
       match res { Err(_) => sink.emit(&opu, &panic_answer(), true), Ok(out) => { sink.emit(&opu, &bits_of(&out), nobs > 1); } }
     }
     // (c) the range-2D path used by the store and MOCPy
-    let times: Vec<Range<u64>> = obs.iter().map(|(t, _)| t.start * tunit()..t.end * tunit()).collect();
+    let times: Vec<Range<u64>> = obs.iter().map(|(t, _)| t0() + t.start * tunit()..t0() + t.end * tunit()).collect();
     let cov: Vec<moc::elemset::range::HpxRanges<u64>> = obs.iter().map(|(_, s)| Ranges::new_unchecked(vec![s * sunit()..(s + 1) * sunit()]).into()).collect();
     if !obs.is_empty() {
-      let res = std::panic::catch_unwind(AssertUnwindSafe(|| TimeSpaceMoc::<u64, u64>::create_from_time_ranges_spatial_coverage(times.clone(), cov.clone(), DT)));
+      let res = std::panic::catch_unwind(AssertUnwindSafe(|| TimeSpaceMoc::<u64, u64>::create_from_time_ranges_spatial_coverage(times.clone(), cov.clone(), DT_())));
       sink.count("path:ranges2d");
       match res { Err(_) => sink.emit(&op, &panic_answer(), true), Ok(o) => { let out = from_flat(&o); sink.emit(&op, &bits_of(&out), nobs > 1); } }
+      // (d) the same, converted to a RangeMOC2 by `time_space_iter` (what the store and the CLI do)
+      let res = std::panic::catch_unwind(AssertUnwindSafe(|| {
+        let o = TimeSpaceMoc::<u64, u64>::create_from_time_ranges_spatial_coverage(times.clone(), cov.clone(), DT_());
+        from_moc2(RangeMOC2::new(DT_(), DS, o.time_space_iter(DT_(), DS).collect()))
+      }));
+      sink.count("path:ranges2d-time_space_iter");
+      match res { Err(_) => sink.emit(&op, &panic_answer(), true), Ok(out) => { sink.emit(&op, &bits_of(&out), nobs > 1); } }
     }
   }
 }
@@ -309,7 +325,7 @@ fn st_rows(buf: &[u8]) -> Option<Vec<(u64, u64)>> {
   None
 }
 
-pub fn c11(sink: &mut Sink, rng: &mut Rng, thorough: bool) {
+fn c11_pass(sink: &mut Sink, rng: &mut Rng, thorough: bool) {
   use moc::deser::ascii::moc2d_from_ascii_ivoa;
   use moc::deser::fits::{from_fits_ivoa, rangemoc2d_to_fits_ivoa, MocIdxType, MocQtyType, STMocType};
   use moc::deser::json::cellmoc2d_from_json_aladin;
@@ -317,11 +333,11 @@ pub fn c11(sink: &mut Sink, rng: &mut Rng, thorough: bool) {
     CellMOC2IntoIterator, CellMOC2Iterator, CellOrCellRangeMOC2IntoIterator, CellOrCellRangeMOC2Iterator,
     RangeMOC2IntoIterator, RangeMOC2Iterator,
   };
-  let n = if thorough { 6000 } else { 800 };
+  let n = if thorough { 15_000 } else { 400 };
   for k in 0..n {
     let mut m = if k % 25 == 0 { Vec::new() } else { random_st(rng) };
     // time indices using the highest usable bits (bit 61/62 region of the u64 time domain)
-    if k % 5 == 1 {
+    if k % 5 == 1 && t0() == 0 {
       if let Some(last) = m.last_mut() {
         let top = (1u64 << 62) - tunit();
         if last.0.last().map(|r| r.end < top).unwrap_or(false) {
@@ -413,3 +429,19 @@ pub fn c11(sink: &mut Sink, rng: &mut Rng, thorough: bool) {
     }
   }
 }
+
+/// The three passes of every ST check: coarse time cells; one-microsecond cells (depth 61) from 0; the same just
+/// below the top of the time domain (indices above 2^53, highest usable bits).
+const PASSES: [(u8, u64); 3] = [(2, 0), (61, 0), (61, (1u64 << 62) - 16)];
+fn passes(sink: &mut Sink, rng: &mut Rng, thorough: bool, f: fn(&mut Sink, &mut Rng, bool)) {
+  for (dt, t0) in PASSES {
+    set_pass(dt, t0);
+    sink.count(&format!("pass:time-depth-{}-offset-{}", dt, if t0 == 0 { "0" } else { "top" }));
+    f(sink, rng, thorough);
+  }
+  set_pass(2, 0);
+}
+pub fn c08(sink: &mut Sink, rng: &mut Rng, thorough: bool) { passes(sink, rng, thorough, c08_pass) }
+pub fn c09(sink: &mut Sink, rng: &mut Rng, thorough: bool) { passes(sink, rng, thorough, c09_pass) }
+pub fn c10(sink: &mut Sink, rng: &mut Rng, thorough: bool) { passes(sink, rng, thorough, c10_pass) }
+pub fn c11(sink: &mut Sink, rng: &mut Rng, thorough: bool) { passes(sink, rng, thorough, c11_pass) }
